@@ -238,7 +238,47 @@ def c12(run):
             "directive (position, count, name, content) and the first entry's doc text")
 
 
+C16_CFG = """CONSTANT Dev <- NoDev
+CONSTANT Options <- MCOptions
+CONSTANT FocusSets <- {focus}
+CONSTANT AllowBad = {bad}
+INIT Init
+NEXT Next
+INVARIANT C16_Precedence
+INVARIANT C16_WrongTypeRejected
+INVARIANT C16_ExcludesUnion
+INVARIANT Emit
+"""
+
+
+def c16(run):
+    import confh
+    import re
+    q = run.tier == "quick"
+    txt = open(lib.SPEC + "/MC_C16.tla").read()
+    kinds = {m.group(1): m.group(2) for m in re.finditer(r'O\("([\w.]+)", "(\w+)"', txt)}
+    for k in ["function", "macro", "cpp_class", "cpp_attr", "cpp_constructor", "cpp_member", "ct_add_test", "add_test",
+              "ct_add_section", "option"]:
+        kinds["input.include_undocumented_" + k] = "bool"
+    res = lib.run_tlc("MC_C16", C16_CFG.format(focus="Singles", bad="TRUE"))
+    run.add_tlc("MC_C16(single options, all subsets of sources, wrong types)", res)
+    confh.replay(run, res.lines.get("BEH", []), kinds, run.seed)
+    res = lib.run_tlc("MC_C16", C16_CFG.format(focus="Pairs", bad="FALSE"))
+    run.add_tlc("MC_C16(pairs of options)", res)
+    confh.replay(run, res.lines.get("BEH", []), kinds, run.seed, limit=400 if q else None)
+    run.assumptions += ["wrong-typed values are judged only in the source that is in effect",
+                        "StrSeq leniency (string -> list) and the logging section are not judged",
+                        "relative_to_config with a directory given on the command line is not judged"]
+    return ("TLC enumerates, for every option of the input/output/rst sections, all subsets of the sources able to set it "
+            "(command line, -s file, user file; packaged defaults below) incl. one wrong-typed value, and pairs of options; "
+            "checks C16_Precedence, C16_WrongTypeRejected, C16_ExcludesUnion on the source-stacking machine; each "
+            "behaviour is replayed twice (two value assignments) through the real cminx.main with synthesised YAML files, "
+            "HOME/XDG_CONFIG_HOME in a sandbox and cminx.document wrapped; compared: the fields of the Settings object, "
+            "the concatenated exclude filters, the resolved output directory, rejection")
+
+
 CHECKS = {p: agg_property for p in AGG}
+CHECKS["C16"] = c16
 CHECKS["C12"] = c12
 for _p in ("C13", "C14", "C15", "C18"):
     CHECKS[_p] = walk_property
